@@ -261,7 +261,7 @@ func (e *CEnv) Eval(x *CExpr) CVal {
 			s, signed := e.sortOf(v.Type)
 			bv := c.BoundVarNamed(fmt.Sprintf("%s@%d", v.Name, e.fx.eng.exprID(x)), s)
 			bound = append(bound, bv)
-			n.bound[v.Name] = CVal{V: bv, G: v.Type, Signed: signed}
+			n.bound[v.Name] = CVal{V: bv, G: v.Type, Signed: signed, T: e.goTypeOf(v.Type)}
 		}
 		body := n.Bool(x.Args[0])
 		return CVal{V: c.Quant(x.Op, bound, body), T: types.Typ[types.Bool]}
@@ -845,7 +845,7 @@ func (e *CEnv) index(x *CExpr) CVal {
 	case SliceV:
 		it := e.indexTerm(e.Eval(x.Args[1]))
 		et := under(base.T).(*types.Slice).Elem()
-		if isObjT(et) {
+		if isElemObj(et) {
 			return e.objVal(PtrV{Kind: PObj, Ref: e.fx.elemRef(et, bv.Ref, c.BVBin("bvadd", bv.Off, it)), Elem: et})
 		}
 		return e.goVal(e.fx.loadElem(e.st, et, bv.Ref, c.BVBin("bvadd", bv.Off, it)), et)
@@ -980,6 +980,101 @@ func (e *CEnv) call(x *CExpr) CVal {
 	case "bytesEq":
 		a, b := e.Eval(x.Args[0]), e.Eval(x.Args[1])
 		return CVal{V: e.fx.bytesEq(e.st, a, b), T: types.Typ[types.Bool]}
+	case "called", "callcount":
+		key := flatName(x.Args[0])
+		if x.Name == "called" {
+			if v, ok := e.st.ghost["call|"+key+"|called"].(*Term); ok {
+				return CVal{V: v, T: types.Typ[types.Bool]}
+			}
+			return CVal{V: c.False(), T: types.Typ[types.Bool]}
+		}
+		if v, ok := e.st.ghost["call|"+key+"|count"].(*Term); ok {
+			return CVal{V: v, T: intT, Signed: true}
+		}
+		return CVal{V: e.fx.bv64(0), T: intT, Signed: true}
+	case "resultof", "argof":
+		// resultof(F, name) / argof(F, name): value at the LAST call of F on this path
+		key := flatName(x.Args[0])
+		if len(x.Args) != 2 || x.Args[1].Op != "ident" {
+			e.fail("%s(F, name)", x.Name)
+		}
+		name := x.Args[1].Name
+		fn := e.fx.eng.FuncByKey(key)
+		fc := e.fx.eng.db.Funcs[key]
+		var sig *types.Signature
+		if fn != nil {
+			sig = fn.Signature
+		}
+		slot, typ := "", types.Type(nil)
+		if x.Name == "resultof" {
+			idx := -1
+			if fc != nil {
+				for i, r := range fc.Results {
+					if r == name {
+						idx = i
+					}
+				}
+			}
+			if idx < 0 && strings.HasPrefix(name, "result") {
+				fmt.Sscan(strings.TrimPrefix(name, "result"), &idx)
+				if name == "result" {
+					idx = 0
+				}
+			}
+			if idx < 0 && sig != nil {
+				for i := 0; i < sig.Results().Len(); i++ {
+					if sig.Results().At(i).Name() == name {
+						idx = i
+					}
+				}
+			}
+			if idx < 0 {
+				e.fail("resultof(%s, %s): no such result", key, name)
+			}
+			slot = fmt.Sprintf("call|%s|res%d", key, idx)
+			if sig != nil && idx < sig.Results().Len() {
+				typ = sig.Results().At(idx).Type()
+			}
+		} else {
+			idx := -1
+			if fc != nil {
+				if name == fc.Recv || name == "recv" {
+					slot = "call|" + key + "|recv"
+					if sig != nil && sig.Recv() != nil {
+						typ = sig.Recv().Type()
+					}
+				}
+				for i, p := range fc.Params {
+					if p == name {
+						idx = i
+					}
+				}
+			}
+			if slot == "" && idx < 0 && sig != nil {
+				for i := 0; i < sig.Params().Len(); i++ {
+					if sig.Params().At(i).Name() == name {
+						idx = i
+					}
+				}
+			}
+			if slot == "" {
+				if idx < 0 {
+					e.fail("argof(%s, %s): no such parameter", key, name)
+				}
+				slot = fmt.Sprintf("call|%s|arg%d", key, idx)
+				if sig != nil && idx < sig.Params().Len() {
+					typ = sig.Params().At(idx).Type()
+				}
+			}
+		}
+		if typ == nil {
+			e.fail("%s(%s, %s): function signature unknown", x.Name, key, name)
+		}
+		v, ok := e.st.ghost[slot]
+		if !ok {
+			v = e.fx.freshVal(typ, "nocall")
+		}
+		return e.goVal(v, typ)
 	case "has":
 		// has(m, k): key k is present in Go map m
 		m := e.Eval(x.Args[0])
@@ -1271,4 +1366,21 @@ func (e *CEnv) loadObjVal(v CVal) CVal {
 	}
 	p := v.V.(PtrV)
 	return CVal{V: e.fx.loadObj(e.st, p.Elem, p.Ref), T: p.Elem}
+}
+
+// goTypeOf maps a ghost type expression to a Go type when there is an obvious one
+// (so that ==, len and map keys on quantified variables follow Go's semantics).
+func (e *CEnv) goTypeOf(t *CType) types.Type {
+	switch t.Kind {
+	case "name":
+		if b := e.lookupBasic(t.Name); b != nil {
+			return b
+		}
+		return e.lookupGoType(t.Name)
+	case "array":
+		if et := e.goTypeOf(t.Elem); et != nil {
+			return types.NewArray(et, t.N)
+		}
+	}
+	return nil
 }
